@@ -541,7 +541,7 @@ func (t *ZeroAllocTokenizer) TokenizeHtmlPreserving() ([]Token, error) {
 			} else {
 				// Process variable tags with optimized tokenization
 				if len(tagContent) > 0 {
-					if !strings.ContainsAny(tagContent, ".|[](){}\"',+-*/=!<>%&^~") {
+					if IsValidVariableName(tagContent) {
 						// Simple variable name
 						identifier := t.GetStringConstant(tagContent)
 						t.AddToken(TOKEN_NAME, identifier, t.line)
@@ -1269,7 +1269,7 @@ func (t *ZeroAllocTokenizer) TokenizeOptimized() ([]Token, error) {
 				// Process variable tags using optimized tokenization
 				if len(tagContent) > 0 {
 					// Check if it's a simple variable or a complex expression
-					if !strings.ContainsAny(tagContent, ".|[](){}\"',+-*/=!<>%&^~") {
+					if IsValidVariableName(tagContent) {
 						// Simple variable name - use string interning for efficiency
 						identifier := Intern(tagContent)
 						t.AddToken(TOKEN_NAME, identifier, t.line)
